@@ -266,7 +266,7 @@ fn check_decode(cx: &Ctx<'_>, input: &[u8]) -> bool {
 
 pub fn run(args: &Args) -> Report {
     let mut rep = Report::new("C09", &args.tier, "enum", "exploration");
-    rep.rule = "encode: exhaustive product of boundary field values per opcode x borrowed/owned/vectored constructors; decode: every byte string b0(256) . id(2) . tail over {00,01,03,04,ff} up to length L, every string of length < 5 over that alphabet x first-byte set, every truncation of every encoded frame; a case is non-trivial/distinct when its byte string is distinct".into();
+    rep.rule = "encode: exhaustive product of boundary field values per opcode x borrowed/owned/vectored constructors; decode: every byte string b0(256) . id(2) . tail over {00,01,03,04,ff} (thorough: {00,01,02,03,04,80,ff}) up to length L (6; thorough 8), every string of length < 5 over that alphabet x first-byte set, every truncation of every encoded frame; a case is non-trivial/distinct when its byte string is distinct".into();
     let thorough = args.thorough();
     let rep = Mutex::new(rep);
     let cx = Ctx { rep: &rep };
@@ -293,8 +293,8 @@ pub fn run(args: &Args) -> Report {
         }
     }
     // ---- decode domain
-    let alphabet = [0x00u8, 0x01, 0x03, 0x04, 0xff];
-    let tail_max = if thorough { 7 } else { 6 };
+    let alphabet: &[u8] = if thorough { &[0x00u8, 0x01, 0x02, 0x03, 0x04, 0x80, 0xff] } else { &[0x00u8, 0x01, 0x03, 0x04, 0xff] };
+    let tail_max = if thorough { 8 } else { 6 };
     let idpats: [[u8; 4]; 2] = [[0, 0, 0, 1], [0xff, 0x00, 0x03, 0x04]];
     let counters = Mutex::new((0u64, 0u64));
     std::thread::scope(|s| {
@@ -366,7 +366,7 @@ pub fn run(args: &Args) -> Report {
     rep.bounds.insert("truncation_inputs".into(), json!(trunc));
     rep.bounds.insert("decode_strings".into(), json!(n_dec));
     rep.bounds.insert("decode_tail_max_len".into(), json!(tail_max));
-    rep.bounds.insert("decode_alphabet".into(), json!(["00", "01", "03", "04", "ff"]));
+    rep.bounds.insert("decode_alphabet".into(), json!(alphabet.iter().map(|b| format!("{b:02x}")).collect::<Vec<_>>()));
     rep.bounds.insert("short_strings".into(), json!(short));
     rep.extra.insert("decode_strings_valid_per_reference".into(), json!(n_valid + valid_inputs));
     rep.extra.insert("build_profile".into(), json!(if cfg!(debug_assertions) { "checked" } else { "release" }));
